@@ -220,6 +220,19 @@ theorem typed_bnode_object (C : Ctx) (n : Nat) (a q ty : Str) (S : T)
       { out := [⟨fresh n, rdfType, .iri ty⟩, ⟨S, q, fresh n⟩], lm := [], next := n + 1 } := by
   simp [procNode, procKids, elemLocal, subjStep, filterRel, hinc, orElse, ha, hq, hty, complete, emitLists,
     propertyValue, plainLit, textOfList, textOf]
+/-- @rev together with @property and a resource attribute: the resource is the object of the @rev triple only; the
+    @property value stays the text content (step 11 takes a resource only when @rel, @rev and @content are absent).
+    `p` is one CURIE/IRI token (HTML+RDFa rule 7 drops term values of @rev when @property is present). -/
+theorem rev_property_literal (C : Ctx) (n : Nat) (a p q r txt : Str) (S O : T)
+    (hinc : C.incomplete = []) (ha : resSCI C.env a = some S) (hr : resSCI C.env r = some O)
+    (hp1 : fields p = [p]) (hp2 : (splitColon p).isSome = true)
+    (hp : resTCAs C.env p = [p]) (hq : resTCAs C.env q = [q]) :
+    procNode C [] n (.elem .span { about := some a, rev := some p, property := some q, resource := some r, lang := some [] }
+        [.text txt]) =
+      { out := [⟨O, p, S⟩, ⟨S, q, .lit txt xsdString none⟩], lm := [], next := n } := by
+  simp [procNode, procKids, elemLocal, subjStep, filterRel, hinc, orElse, ha, hr, hp, hq, hp1, hp2, complete, emitLists,
+    propertyValue, plainLit, textOfList, textOf]
+
 def listItem (p c : Str) : Tree := .elem .span { property := some p, inlist := some [], content := some c, lang := some [] } []
 
 theorem listItem_proc (C : Ctx) (lm : LM) (n : Nat) (p c : Str)
